@@ -189,7 +189,7 @@ func init() {
 			}
 		},
 		Sections: func(tier core.Tier, seed int64) []core.Section {
-			n, r1, r2 := 2400, 12, 3
+			n, r1, r2 := 6000, 12, 3
 			if tier == core.Thorough {
 				n, r1, r2 = 40000, 40, 8
 			}
